@@ -71,6 +71,9 @@ type verifC14Pool struct {
 	calls      []string
 	shutdowns  []int
 	effects    map[int][]string
+
+	trackStarts bool         // fs: a successful StartContainer makes the container "running"
+	started     map[int]bool // … and is remembered
 }
 
 func (p *verifC14Pool) next() bool {
@@ -137,6 +140,13 @@ func (p *verifC14Pool) StartContainer(it arvados.InstanceType, ctr arvados.Conta
 	defer p.Unlock()
 	b := p.next()
 	p.calls = append(p.calls, fmt.Sprintf("st%d:%d=%s", verifC14TypeNum(it), verifC14UUIDNum(ctr.UUID), verifC14B(b)))
+	if b && p.trackStarts {
+		if p.started == nil {
+			p.started = map[int]bool{}
+		}
+		p.started[verifC14UUIDNum(ctr.UUID)] = true
+		p.running[ctr.UUID] = time.Time{}
+	}
 	return b
 }
 func (p *verifC14Pool) KillContainer(uuid, reason string) bool {
@@ -306,6 +316,100 @@ func verifC14NewSched(q ContainerQueue, p WorkerPool) *Scheduler {
 	return New(ctx, q, p, nil, time.Hour, time.Hour)
 }
 
+// fs: the real fixStaleLocks followed by two real runQueue passes, against a pool that has one
+// Unknown (not yet probed) instance hosting the processes `hidden`, which Running() therefore
+// does not report.
+func verifC14Fs(f []string) string {
+	q, err := verifC14BuildQueue(f[1])
+	if err != nil {
+		return "bad-op"
+	}
+	p := &verifC14Pool{running: map[string]time.Time{}, unalloc: map[arvados.InstanceType]int{}, effects: map[int][]string{}}
+	for _, u := range verifC14Split(f[2]) {
+		n, err := strconv.Atoi(u)
+		if err != nil {
+			return "bad-op"
+		}
+		p.running[test.ContainerUUID(n)] = time.Time{}
+	}
+	hidden := map[int]bool{}
+	for _, u := range verifC14Split(f[3]) {
+		n, err := strconv.Atoi(u)
+		if err != nil {
+			return "bad-op"
+		}
+		hidden[n] = true
+	}
+	if f[4] != "0" && f[4] != "1" {
+		return "bad-op"
+	}
+	p.anyUnknown = f[4] == "1"
+	for _, tn := range verifC14Split(f[5]) {
+		kv := strings.Split(tn, ":")
+		if len(kv) != 2 {
+			return "bad-op"
+		}
+		t, err1 := strconv.Atoi(kv[0])
+		n, err2 := strconv.Atoi(kv[1])
+		if err1 != nil || err2 != nil {
+			return "bad-op"
+		}
+		p.unalloc[test.InstanceType(t)] = n
+	}
+	if f[6] != "-" {
+		for _, c := range f[6] {
+			if c != '0' && c != '1' {
+				return "bad-op"
+			}
+			p.script = append(p.script, c == '1')
+		}
+	}
+	p.trackStarts = true
+	wq := &verifC14Queue{Queue: q, p: p, updated: verifC14Base}
+	ctx := ctxlog.Context(context.Background(), verifC14Logger)
+	sch := New(ctx, wq, p, nil, 2*time.Millisecond, time.Hour)
+	take := func(sortAll bool) string {
+		p.Lock()
+		defer p.Unlock()
+		calls := append([]string(nil), p.calls...)
+		if sortAll {
+			sort.Slice(calls, func(i, j int) bool {
+				a, _ := strconv.Atoi(strings.TrimPrefix(calls[i], "qu"))
+				b, _ := strconv.Atoi(strings.TrimPrefix(calls[j], "qu"))
+				return a < b
+			})
+		}
+		sort.Ints(p.shutdowns)
+		for _, t := range p.shutdowns {
+			calls = append(calls, fmt.Sprintf("sd%d", t))
+		}
+		p.calls, p.shutdowns = nil, nil
+		return verifC14Join(calls)
+	}
+	sch.fixStaleLocks()
+	out := take(true)
+	for pass := 0; pass < 2; pass++ {
+		base := runtime.NumGoroutine()
+		sch.runQueue()
+		if !verifC14Wait(base) {
+			return "goroutines-did-not-finish"
+		}
+		out += ";" + take(false)
+	}
+	var dbl []int
+	for u := range p.started {
+		if hidden[u] {
+			dbl = append(dbl, u)
+		}
+	}
+	sort.Ints(dbl)
+	var ds []string
+	for _, u := range dbl {
+		ds = append(ds, strconv.Itoa(u))
+	}
+	return out + ";double=" + verifC14Join(ds)
+}
+
 func verifC14Case(line string) (out string) {
 	defer func() {
 		if r := recover(); r != nil {
@@ -434,6 +538,8 @@ func verifC14Case(line string) (out string) {
 			return a < b
 		})
 		return verifC14Join(calls) + ";" + verifC14Effects(p)
+	case f[0] == "fs" && len(f) == 7:
+		return verifC14Fs(f)
 	case f[0] == "la" && len(f) == 2:
 		p := &verifC14Pool{effects: map[int][]string{}}
 		sch := verifC14NewSched(&verifC14Queue{Queue: &test.Queue{ChooseType: verifC14ChooseType}, p: p}, p)
